@@ -78,14 +78,18 @@ def srswor_vc():
     def inv(I, f, k):
         gv = I.ex.ghost["gv"]
         ell, rem = scalar(f.locals["remainder_ell"]), scalar(f.locals["remainder_t"])
-        kr, tot = z3.ToReal(k), z3.ToReal(TOTAL)
-        left = z3.If(tot - kr > 0, tot - kr, 0)
-        return z3.And(ell == z3.ToReal(GIVEN) - gv.count, z3.IsInt(ell), 0 <= ell, ell <= left, rem == z3.If(tot - kr > 1, tot - kr, 1),
+        m = TOTAL - k  # positions of the population still ahead: an INTEGER term (bounds stated over the integers keep the solver
+        # out of branch-and-bound over an unbounded real relaxation)
+        left = z3.ToReal(z3.If(m > 0, m, 0))
+        return z3.And(ell == z3.ToReal(GIVEN) - gv.count, ell == z3.ToReal(z3.ToInt(ell)), 0 <= ell, ell <= left, rem == z3.ToReal(z3.If(m > 1, m, 1)),
                       z3.Not(gv.bad), z3.Not(gv.nonbinary))
 
-    def havoc_state(name):
+    def havoc_state(name, integer=False):
         def mk(I):
-            return ct.CT(ct.obj_array(I.ex.fresh("real", "havoc_" + name), (1,)), "float")
+            # `integer`: the invariant says the value is a whole number, i.e. it is ToReal(e) for SOME integer e - havoc it in that
+            # form (equivalent hypothesis; keeps the solver in linear integer arithmetic instead of IsInt / ToInt over the reals)
+            v = z3.ToReal(I.ex.fresh("int", "havoc_" + name)) if integer else I.ex.fresh("real", "havoc_" + name)
+            return ct.CT(ct.obj_array(v, (1,)), "float")
         return mk
 
     class Loop(LoopSpec):
@@ -97,7 +101,7 @@ def srswor_vc():
             return LoopSpec.run(self, I, s, f, emit_init=False)
 
     loop = Loop("srswor.loop", inv, length=lambda I, f, it: ip.to_z3(OUT), item=lambda I, f, it, k: k,
-                modifies={"remainder_ell": havoc_state("ell"), "remainder_t": havoc_state("rem"), "p": havoc_state("p"), "b_t": havoc_state("b")})
+                modifies={"remainder_ell": havoc_state("ell", integer=True), "remainder_t": havoc_state("rem"), "p": havoc_state("p"), "b_t": havoc_state("b")})
 
     def post(p):
         if not api.returns(p):
